@@ -1,0 +1,68 @@
+//! Verification hooks (compiled only with `--cfg mdk_verif`).
+//!
+//! H2: a labelled tick before every storage operation issued on this thread. A harness can record the
+//! labels, count the ticks of an API call, and arm the counter so that the k-th tick panics — which
+//! simulates the process dying at that storage operation (the connection is then abandoned).
+
+use std::cell::RefCell;
+
+#[derive(Default)]
+struct State {
+    count: u64,
+    armed: Option<u64>,
+    recording: bool,
+    labels: Vec<String>,
+}
+
+thread_local! {
+    static STATE: RefCell<State> = RefCell::new(State::default());
+}
+
+/// Reset the counter; `record` = keep the labels; `arm` = panic at that tick (1-based).
+pub fn reset(record: bool, arm: Option<u64>) {
+    STATE.with(|s| {
+        let mut s = s.borrow_mut();
+        s.count = 0;
+        s.armed = arm;
+        s.recording = record;
+        s.labels.clear();
+    });
+}
+
+/// Ticks seen since the last reset.
+pub fn count() -> u64 {
+    STATE.with(|s| s.borrow().count)
+}
+
+/// Labels recorded since the last reset.
+pub fn take_labels() -> Vec<String> {
+    STATE.with(|s| std::mem::take(&mut s.borrow_mut().labels))
+}
+
+/// One storage operation is about to be issued.
+pub fn tick(label: &str) {
+    let die = STATE.with(|s| {
+        let mut s = s.borrow_mut();
+        s.count += 1;
+        if s.recording {
+            s.labels.push(label.to_string());
+        }
+        if s.armed == Some(s.count) {
+            s.armed = None;
+            true
+        } else {
+            false
+        }
+    });
+    if die {
+        panic!("mdk_verif: simulated process death at storage operation `{label}`");
+    }
+}
+
+/// Tick labelled with the call site of the storage access.
+#[track_caller]
+pub fn tick_here() {
+    let loc = std::panic::Location::caller();
+    let file = loc.file().rsplit('/').next().unwrap_or("");
+    tick(&format!("{}:{}", file, loc.line()));
+}
